@@ -462,13 +462,26 @@ func checkC03(c c03Case) (restarts int, rebuilt int, err error) {
 		if e != nil {
 			return restarts, w.rebuilt, died("snapshot after restart", e)
 		}
-		var diffs []string
+		var diffs, orderDiffs []string
 		for _, d := range drive.DiffSnapshots(before, after) {
 			k := strings.SplitN(d, ": ", 2)[0]
 			if unstable[k] {
 				continue
 			}
+			if strings.HasSuffix(k, "#order") {
+				orderDiffs = append(orderDiffs, d)
+				continue
+			}
 			diffs = append(diffs, d)
+		}
+		if len(diffs) == 0 && len(orderDiffs) > 0 {
+			// same members, different order of a neuronjson list answer (keys / all / keyrange)
+			const sig = "C03/neuronjson/list-order-changes-across-restart"
+			if stats.IsKnown(sig) {
+				stats.KnownHit(sig)
+			} else {
+				return restarts, w.rebuilt, stats.Violf(sig, "after %s at op %d: %s", o.Kind, i, strings.Join(orderDiffs, " || "))
+			}
 		}
 		if len(diffs) > 0 {
 			first := strings.SplitN(diffs[0], ": ", 2)[0]
